@@ -215,7 +215,9 @@ var hostileExprs = []string{"", " ", "/", "//", "///", "(", ")", "[", "]", "()",
 	"substring('12345', -5, 2)", "substring('x', 1e308, -1e308)", "5 mod 0.5", "-9223372036854775808 mod -1", "round(1e300)", "9223372036854775808 mod 2", "sum(/)", "count()", "count(1)", "1|2", "(1)[1]", "'a'/b", "$n/x", "string(1,2)",
 	"concat()", "concat('a')", "translate('a','b')", "lang()", "position(1)", "last(1)", "not()", "true(1)", "name(1)", "local-name('a')", "namespace-uri(1)", "sum(1)", "sum('a')", "floor()", "id('x')",
 	"//*[1][2][3][4][5][6]", "((((((((((1))))))))))", "- - - - - - - 1", "1+1+1+1+1+1+1+1+1+1+1+1+1+1+1+1+1+1+1+1", "a/b/c/d/e/f/g/h/i/j/k/l/m/n/o/p", "//a//b//c//d//e//f", "child::child::child", "self::self", "processing-instruction('a'", "processing-instruction(1)",
-	"\x00", "a\x00b", "\xff\xfe", "\xed\xa0\x80", "1e400", "99999999999999999999999999999999999999999999", "0.00000000000000000000000000000000000000000001", "１２３", "a b", "a | b", "/ * 2", "1 . 5", ". 5", "1.", "_a", "div", "and or", "/div", "@@a", "a[", "a]", "a[]", "a[[1]]", "f(", "f(,)", "f(1,)", "$ v", "$v:", "$:v"}
+	"\x00", "a\x00b", "\xff\xfe", "\xed\xa0\x80", "1e400", "99999999999999999999999999999999999999999999", "0.00000000000000000000000000000000000000000001", "１２３", "a b", "a | b", "/ * 2", "1 . 5", ". 5", "1.", "_a", "div", "and or", "/div", "@@a", "a[", "a]", "a[]", "a[[1]]", "f(", "f(,)", "f(1,)", "$ v", "$v:", "$:v",
+	// $z is bound to a nil Result
+	"$z", " $z ", "($z)", "$z | $z", "$z/a", "count($z)", "string($z)", "$z = 1", "-$z", "$z[1]", "$z or 1", "not($z)", "concat($z, 'a')", "//*[$z]", "sum($z)", "name($z)", "$z//a", "($z)[1]/a"}
 
 func TestC15(t *testing.T) {
 	runWitnesses(t, "C15")
